@@ -283,3 +283,30 @@ PROPS["C18"] = dict(
     unproved=["the sender's transmission sequence metadata - data once - EOF as a whole-history statement (oracle send_shape; per-PDU truthfulness is C07)",
               "a cancelled unacknowledged receiver with closure prepares a Finished PDU but terminates before sending it (observed in the model and the code; see DESIGN.md, C10)"],
 )
+
+PROPS["C08"] = dict(
+    title="Receiver NAKs are well-formed and ask for exactly what is missing",
+    module="Cfdp.Props.C08",
+    namespace="Cfdp.Loop",
+    theorems=["C08_wellformed", "Cfdp.Recv.C08_exact", "Cfdp.Recv.C08_queue_after_eof", "Cfdp.Recv.C08_queue_after_eof_delayed",
+              "Cfdp.Recv.C08_immediate_gap", "C08_deferred_quiet"],
+    engines=["recv", "seg"],
+    design="§6 C08",
+    technique="Lean 4 invariant proofs over all event histories of the receiver model (using the C09 gap theorems) + differential correspondence",
+    level_text=("Kernel-checked: for a file of N bytes (data PDUs inside the file, EOFs announcing at most N; otherwise any PDUs, any order, duplicates, losses, prompts, "
+                "timer expirations, suspend/resume, faults) every NAK the receiver model transmits has only requests that are the 0-0 marker or non-empty ranges, each inside "
+                "the announced scope and ending at or below N, and a data field of at most segment size + 1 octets (C08_wellformed; invariant NQ: well-formed segment list, "
+                "queue and delayed windows below N); once the EOF is in hand the list from which the queue is rebuilt (after EOF, on every NAK-timer expiry, on Prompt(NAK), "
+                "on resume) is the marker iff the metadata is missing followed by ranges covering precisely the bytes of [0, size) not held - none left out, first segment "
+                "included, none already held (C08_exact via C09 gaps_exact; C08_queue_after_eof / _delayed say when the queue takes that value); under the deferred "
+                "procedure no NAK is transmitted over any history without EOF and Prompt PDUs (C08_deferred_quiet); under the immediate procedure a gap detected by a "
+                "data PDU is queued at once or gets a timer of the configured delay (C08_immediate_gap), and an expired timer appends only the gaps that persist in its "
+                "window (nq_handleDelayed). Tie to the code: recv engine (NAK queue, delayed timers, segment list and every emitted NAK compared) and seg engine (gaps)."),
+    level_note=RECV_SEND_NOTE,
+    rule=("recv engine as in C04 (loss of any subset of data segments and metadata, EOF first, data after EOF, duplicated EOF, prompts; deferred/immediate x delay 0/300 ms; "
+          "segment sizes 16..64 so that NAK lists split over several PDUs; re-segmented overlapping data) + seg engine as in C09. Oracles wf_scope, wf_empty_range, "
+          "wf_beyond_file, wf_size, wf_meta_marker, deferred_quiet, exact_after_eof. Non-trivial = a PDU was emitted or an indication raised."),
+    assumptions=["C08_wellformed 'inside the file': the sender's data PDUs lie inside the file and its EOF announces the file's size (hypothesis EvOk)",
+                 "segment size at least 2 x the width of a file-size field (otherwise max_nak_num underflows; the model marks that as a panic)"],
+    unproved=["the 0-0 marker is queued only while the metadata is missing (it can stay in the queue after the metadata arrived; harness oracle wf_meta_marker checks its creation)"],
+)
